@@ -1291,14 +1291,22 @@ func (e *Engine) builtin(fr *Frame, b *ssa.Builtin, c *ssa.CallCommon, args []Va
 		}
 		return args[0]
 	case "min", "max":
-		a, b2 := args[0].(*Term), args[1].(*Term)
-		if len(args) != 2 {
-			unsupported("min/max arity")
+		acc, isInt := args[0].(*Term)
+		if !isInt {
+			unsupported("min/max of %T", args[0])
 		}
-		if b.Name() == "min" {
-			return tIte(tCmp("<=", a, b2), a, b2)
+		for _, x := range args[1:] {
+			b2, ok := x.(*Term)
+			if !ok {
+				unsupported("min/max of %T", x)
+			}
+			if b.Name() == "min" {
+				acc = tIte(tCmp("<=", acc, b2), acc, b2)
+			} else {
+				acc = tIte(tCmp(">=", acc, b2), acc, b2)
+			}
 		}
-		return tIte(tCmp(">=", a, b2), a, b2)
+		return acc
 	case "clear":
 		if m, ok := args[0].(MapVal); ok && m.m != nil {
 			m.m.entries = nil
